@@ -209,6 +209,15 @@ def modDownQPtoQNTT (TQ TP : Scaling.Tabs) (Q P : List Nat) (levelQ levelP : Nat
   let buffQ := (List.range (levelQ + 1)).map fun i => NTT.nttStdLazy (Scaling.tab TQ i) (row buffQ i)
   modDownRows Q P levelQ levelP buffQ p1Q
 
+/-- `ModDownQPtoQNTT` for either ring type (`Scaling.xfStd`: the function above, by `rfl`) -/
+def modDownQPtoQNTTX (F : Scaling.Xf) (TQ TP : Scaling.Tabs) (Q P : List Nat) (levelQ levelP : Nat) (p1Q p1P : Rows) : Rows :=
+  let buffP := (List.range (levelP + 1)).map fun j => F.inttLazy (Scaling.tab TP j) (row p1P j)
+  let buffQ := modUpPtoQ Q P levelP levelQ buffP
+  let buffQ := (List.range (levelQ + 1)).map fun i => F.nttLazy (Scaling.tab TQ i) (row buffQ i)
+  modDownRows Q P levelQ levelP buffQ p1Q
+
+theorem modDownQPtoQNTTX_std : modDownQPtoQNTTX Scaling.xfStd = modDownQPtoQNTT := rfl
+
 /-! ### small-norm extension -/
 
 /-- `ringqp.Ring.ExtendBasisSmallNormAndCenter(polyInQ, levelP, polyOutQ, polyOutP)`: rows of polyOutP -/
